@@ -70,11 +70,12 @@ const (
 	L2Busy
 	L2Full
 	L2Ctx
-	L2Crash // this and every later statement on every connection fails; onCrash is called first
+	L2Crash      // this and every later statement on every connection fails; onCrash is called first
+	L2ClientGone // the client of the request goes away: onClientGone (cancels the request context) is called, the statement fails with context.Canceled
 )
 
 func (f L2Fault) String() string {
-	return [...]string{"none", "io", "badconn", "busy", "full", "ctx", "crash"}[f]
+	return [...]string{"none", "io", "badconn", "busy", "full", "ctx", "crash", "client-gone"}[f]
 }
 
 var (
@@ -84,20 +85,21 @@ var (
 )
 
 type l2Hub struct {
-	mu        sync.Mutex
-	recording bool
-	log       []StmtRec
-	seq       int
-	armed     bool
-	count     int // statements since Arm
-	faultAt   int // 1-based statement index since Arm (0: none)
-	fault     L2Fault
-	onlyKinds map[StmtKind]bool
-	fired     int
-	crashed   bool
-	onCrash   func()
-	hook      func(ctx context.Context, rec *StmtRec) error // called (without the lock) before a statement executes: tier T parking; a non-nil error fails the statement
-	conns     int
+	mu           sync.Mutex
+	recording    bool
+	log          []StmtRec
+	seq          int
+	armed        bool
+	count        int // statements since Arm
+	faultAt      int // 1-based statement index since Arm (0: none)
+	fault        L2Fault
+	onlyKinds    map[StmtKind]bool
+	fired        int
+	crashed      bool
+	onCrash      func()
+	onClientGone func()
+	hook         func(ctx context.Context, rec *StmtRec) error // called (without the lock) before a statement executes: tier T parking; a non-nil error fails the statement
+	conns        int
 }
 
 var theHub = &l2Hub{}
